@@ -768,7 +768,7 @@ static void Gen(uint64_t seed, bool thorough)
 		Must("G 0 s:" + Hex("@P $c2$") + " -");
 	}
 	/* random resolutions */
-	int cases = thorough ? 12000 : 2200;
+	int cases = thorough ? 40000 : 9000;
 	for (int c = 0; c < cases; c++) {
 		GenSetup(r, ++n);
 		int ops = 4 + (int)r.below(8);
@@ -782,16 +782,16 @@ static void Gen(uint64_t seed, bool thorough)
 	}
 	/* output parsing through the finished-handler */
 	Must("C " + std::to_string(++n));
-	int outs = thorough ? 60000 : 8000;
+	int outs = thorough ? 150000 : 30000;
 	for (int i = 0; i < outs; i++)
 		Must("P " + std::to_string(RandExit(r)) + " " + Hex(RandOutput(r)));
 	/* /bin/sh against the word-splitting model */
 	Must("C " + std::to_string(++n));
-	int shs = thorough ? 2500 : 150;
+	int shs = thorough ? 4000 : 500;
 	for (int i = 0; i < shs; i++)
 		Must("W " + Hex(RandShText(r)));
 	/* end to end */
-	int spawns = thorough ? 2500 : 160;
+	int spawns = thorough ? 2500 : 400;
 	for (int c = 0; c < spawns; c++) {
 		GenSetup(r, ++n);
 		for (int i = 0; i < 2; i++)
